@@ -1,4 +1,67 @@
-From GC Require Import Common.Base Model.Paths Model.Fs Model.Views Proofs.Fs.
+(** C03 — A filespace never reaches outside its root, whatever path it is given.
+    Statements only.  A stack of views is a chain of path-transforming layers over a root
+    backend (Model/Views.v); [root_of c] is where the stack's own root lies in the backend. *)
+From GC Require Import Common.Base Model.Paths Model.Fs Model.Views Proofs.Paths Proofs.Fs Proofs.Views.
+
+(** Reduction never yields an empty, "." or ".." component: a successfully reduced path cannot
+    name anything above the point it is resolved from. *)
+Theorem C03_reduce_canonical : forall s p, reduce s = Some p -> good_path p = true.
+Proof. exact reduce_good. Qed.
+Print Assumptions C03_reduce_canonical.
+
+(** The string concatenation performed by every view kind composes as component concatenation:
+    for ANY base string X, [X ++ "/" ++ canonical r] reduces to [reduce X ++ r], and fails
+    exactly when X alone fails (no argument can compensate a climbing base, no base can be
+    escaped by an argument). *)
+Theorem C03_concat : forall X r, good_path r = true ->
+  reduce (X ++ SLASH :: join r) = match reduce X with Some b => Some (b ++ r) | None => None end.
+Proof. exact reduce_prefix_join. Qed.
+Print Assumptions C03_concat.
+
+(** Path level, all stacks of memfs child views, sub-path views, read-only masks and encrypted
+    layers at any nesting depth: a raw argument is rejected, or it addresses [root ++ r] with [r]
+    the canonical reduction of the argument. *)
+Theorem C03_resolve_confined : forall nn c s p,
+  no_cache c = true -> bases_ok c -> resolve nn c s = Some p ->
+  exists b r, root_of c = Some b /\ reduce s = Some r /\ good_path r = true /\ p = b ++ r.
+Proof. exact resolve_confined. Qed.
+Print Assumptions C03_resolve_confined.
+
+Theorem C03_climb_rejected : forall nn c s,
+  no_cache c = true -> bases_ok c -> reduce s = None -> resolve nn c s = None.
+Proof. exact resolve_climb_rejected. Qed.
+Print Assumptions C03_climb_rejected.
+
+(** Every stack that the API can build (Filespace(p), NewSubFS, NewReadonlyFS, NewEncryptFS in
+    any order and depth from the root) has well-formed bases, so the theorems apply to it. *)
+Theorem C03_api_stacks : forall ks c,
+  build [] ks = Some c -> bases_ok c /\ no_cache c = true.
+Proof.
+  intros ks c H. split.
+  - apply (build_bases_ok ks [] c); [exact I|exact H].
+  - apply (build_no_cache ks [] c); [reflexivity|exact H].
+Qed.
+Print Assumptions C03_api_stacks.
+
+(** Tree level: any of the 16 operations, with any raw arguments, through any such stack whose
+    root is [b]: a node that is not at or below [b] is untouched; the only thing that can appear
+    outside is a directory on the way down to [b]. *)
+Theorem C03_confined : forall c t o b q,
+  no_cache c = true -> bases_ok c -> WF t -> root_of c = Some b -> is_prefix b q = false ->
+  (forall e, lookup t q = Some e -> lookup (fst (chain_step c t o)) q = Some e) /\
+  (lookup t q = None -> lookup (fst (chain_step c t o)) q <> None ->
+   lookup (fst (chain_step c t o)) q = Some D /\ is_prefix q b = true).
+Proof. exact chain_step_outside. Qed.
+Print Assumptions C03_confined.
+
+(** A stack whose base climbs out of the backend has no root at all: nothing changes. *)
+Theorem C03_no_root_no_effect : forall c t o,
+  no_cache c = true -> bases_ok c -> root_of c = None -> fst (chain_step c t o) = t.
+Proof. exact chain_step_no_root. Qed.
+Print Assumptions C03_no_root_no_effect.
+
+(** The memfs child view, stated directly on its step function (any depth: nested views are
+    views with the concatenated base). *)
 Theorem C03_memfs_view_confined : forall b t o q,
   WF t -> good_path b = true -> is_prefix b q = false ->
   (forall e, lookup t q = Some e -> lookup (fst (view_step (view_base b) t o)) q = Some e) /\
@@ -6,3 +69,11 @@ Theorem C03_memfs_view_confined : forall b t o q,
    lookup (fst (view_step (view_base b) t o)) q = Some D /\ is_prefix q b = true).
 Proof. exact view_step_outside. Qed.
 Print Assumptions C03_memfs_view_confined.
+
+(** Non-vacuity. *)
+Example C03_ex_stack :
+  exists c, build [] [KChild [97]; KNewSub [47;98;47]; KRO; KChild [46;47;99]] = Some c /\
+            root_of c = Some [[97]; [98]; [99]] /\
+            resolve false c [46;46;47;120] = None /\
+            resolve false c [120;47;46;46;47;121] = Some [[97]; [98]; [99]; [121]].
+Proof. eexists. vm_compute. repeat split. Qed.
